@@ -353,4 +353,30 @@ def gen_scenarios(rng):
                 ops.append({"op": rng.choice(["stats", "list"]), "now": now,
                             "filt": {"route": "", "target": "", "state": "", "limit": 0, "before": None, "preview": False, "order": ""}})
         hs.append({"cfg": cfg, "ops": ops, "snap_every": 1})
+    # S5: a DLQ depth cap with every age rule off (the prune has nothing to do by age, the cap must still be applied),
+    #     and the mirror image: an age rule with the cap off.  Clock steps of whole seconds: also part of C13's cross comparison.
+    for _ in range(3):
+        depth = rng.choice([1, 2, 3])
+        only_depth = rng.random() < 0.7
+        cfg = _cfg0(prune_iv=rng.choice([1, MS, SEC]), dlq_depth=depth if only_depth else 0, dlq_age=0 if only_depth else 5 * SEC)
+        now = BASE + rng.randrange(1000) * SEC
+        ops = []
+        n = depth + rng.choice([1, 2, 3])
+        for i in range(n):
+            now += SEC
+            ops.append({"op": "enqueue", "now": now, "enq": [_enq("d%d" % i, body=50 + i)]})
+        now += SEC
+        ops.append({"op": "dequeue", "now": now, "route": "", "target": "", "batch": n, "ttl": 3600 * SEC})
+        d0 = len(ops) - 1
+        for i in range(n):
+            now += SEC
+            ops.append({"op": "lease", "now": now, "kind": "dead", "dur": 0, "reason": "boom", "lease": {"ref": [d0, i]}})
+        for _k in range(3):
+            now += rng.choice([SEC, 2 * SEC, 7 * SEC])
+            ops.append({"op": rng.choice(["stats", "list_dead", "list"]), "now": now,
+                        "filt": {"route": "", "target": "", "state": "", "limit": 0, "before": None, "preview": False, "order": ""}})
+        now += SEC
+        ops.append({"op": "manage", "now": now, "kind": "requeue_dead", "ids": ["d0", "d%d" % (n - 1)]})
+        ops.append({"op": "stats", "now": now})
+        hs.append({"cfg": cfg, "ops": ops, "snap_every": 1, "c13_ok": True})
     return hs
